@@ -113,9 +113,35 @@ class FailingFile:
 
     def write(self, data):
         if self.n <= 0:
-            raise OSError(28, 'No space left on device')
+            raise self.exc
         self.n -= 1
         return self.buf.write(data)
+
+    exc = OSError(28, 'No space left on device')
+
+
+class Interrupt(BaseException):
+    """What Ctrl-C, sys.exit() in a signal handler or a cancelled task look like: not an Exception subclass."""
+
+
+class InterruptedReader:
+    """A readable file object whose read() raises after k bytes have been handed out."""
+
+    def __init__(self, data, k, exc):
+        self.buf = io.BytesIO(data)
+        self.k = k
+        self.exc = exc
+
+    def read(self, n=-1):
+        if self.buf.tell() + (n if n and n > 0 else 0) > self.k:
+            raise self.exc
+        return self.buf.read(n)
+
+    def tell(self):
+        return self.buf.tell()
+
+    def seek(self, *a):
+        return self.buf.seek(*a)
 
 
 def check_success(case):
@@ -179,7 +205,7 @@ def check_fault(case):
     f = case['fault']
     kind = f['kind']
     raised = None
-    if kind in ('truncate', 'hibyte', 'undecodable', 'badkey', 'badcharset-load'):
+    if kind in ('truncate', 'hibyte', 'undecodable', 'badkey', 'badcharset-load', 'read-interrupted'):
         b = bytearray(reference_bytes(case))
         use_cs = cs
         if kind == 'truncate':
@@ -199,9 +225,13 @@ def check_fault(case):
             b[i + 3] = 9
         elif kind == 'badcharset-load':
             use_cs = f['name']
+        source = io.BytesIO(bytes(b))
+        if kind == 'read-interrupted':
+            source = InterruptedReader(bytes(b), f['k'], {'os': OSError(5, 'Input/output error'), 'interrupt': Interrupt(),
+                                                         'keyboard': KeyboardInterrupt()}[f['exc']])
         try:
-            mido.MidiFile(file=io.BytesIO(bytes(b)), charset=use_cs)
-        except Exception as exc:  # noqa: BLE001
+            mido.MidiFile(file=source, charset=use_cs)
+        except (Exception, Interrupt, KeyboardInterrupt) as exc:  # noqa: BLE001
             raised = exc
         where = f'load[{kind}]'
     else:
@@ -220,10 +250,12 @@ def check_fault(case):
             mid.tracks.append(mido.MidiTrack())
         elif kind == 'badcharset-save':
             mid.charset = f['name']
-        target = FailingFile(f['n']) if kind == 'write-fails' else io.BytesIO()
+        target = FailingFile(f['n']) if kind in ('write-fails', 'write-interrupted') else io.BytesIO()
+        if kind == 'write-interrupted':
+            target.exc = {'interrupt': Interrupt(), 'keyboard': KeyboardInterrupt(), 'exit': SystemExit(3)}[f['exc']]
         try:
             mid.save(file=target)
-        except Exception as exc:  # noqa: BLE001
+        except (Exception, Interrupt, KeyboardInterrupt, SystemExit) as exc:  # noqa: BLE001
             raised = exc            # kept alive (with its traceback and frames) until after the probe below
         where = f'save[{kind}]'
     out = probe(where, [t for _, t in case['texts']] + ([f['text']] if 'text' in f else []))
@@ -299,6 +331,9 @@ def faults_for(case):
         out.append({'kind': 'unencodable', 'n': n, 'text': '☃é퟿\U0001F3B5'})
     out.append({'kind': 'type0'})
     out += [{'kind': 'write-fails', 'n': n} for n in range(0, 8)]
+    # ... and faults that are not Exception subclasses (an interrupt arriving in the middle of the call)
+    out += [{'kind': 'write-interrupted', 'n': n, 'exc': e} for n in (0, 1, 2, 3, 5) for e in ('interrupt', 'keyboard', 'exit')]
+    out += [{'kind': 'read-interrupted', 'k': k, 'exc': e} for k in (0, 4, 14, 18, 22, 30, 40) for e in ('os', 'interrupt', 'keyboard')]
     out += [{'kind': 'badcharset-save', 'name': nm} for nm in ('utf-8x', 'no_such_codec')]
     return out
 
